@@ -444,7 +444,7 @@ async def _(mpc):
     return [e, mr.sample(secint, [], 0), len(await mpc.output(mr.sample(secint, [secint(1), 2, 3], 2)))]
 
 
-@open_case('C04', 'C04-signed-prime-field-to-bits', 'to_bits on a signed prime field', expected=[[1, 0, 1], 5])
+@case('C04', 'to_bits on a signed prime field', 'dc97b4a', expected=[[1, 0, 1], 5])
 async def _(mpc):
     S = mpc.SecFld(7, signed=True)
     b = mpc.to_bits(S(5))
